@@ -215,7 +215,7 @@ func (e *Engine) loadContractFile(path, pkgShort string) error {
 		lines = append(lines, logical{t, i + 1})
 	}
 	isStart := func(s string) bool {
-		for _, k := range []string{"func ", "trusted func ", "interface ", "spec ", "ghostvar ", "propset ", "requires", "ensures", "axiom", "modifies", "loop ", "ghost ", "also", "pure", "noinline", "inline", "taints", "before", "after", "ghostinc_callsite ", "ghostinc ", "ghostset ", "implements ", "unverified", "witness ", "lemma ", "assert", "at "} {
+		for _, k := range []string{"func ", "trusted func ", "interface ", "spec ", "ghostvar ", "propset ", "requires", "ensures", "axiom", "modifies", "loop ", "ghost ", "also", "pure", "noinline", "inline", "props ", "taints", "before", "after", "ghostinc_callsite ", "ghostinc ", "ghostset ", "implements ", "unverified", "witness ", "lemma ", "assert", "at "} {
 			if strings.HasPrefix(s, k) {
 				return true
 			}
@@ -356,6 +356,11 @@ func (e *Engine) loadContractFile(path, pkgShort string) error {
 				return fmt.Errorf("%s:%d: after: %v", path, l.line, err)
 			}
 			cur.Afters = append(cur.Afters, AfterStmt{Callee: callee, Ghost: gname, E: ex, Tags: atags})
+		case strings.HasPrefix(t, "props "):
+			// the function is verified under these properties whatever the tags of its clauses
+			if cur != nil {
+				cur.Props = append(cur.Props, strings.Fields(strings.ReplaceAll(t[len("props "):], ",", " "))...)
+			}
 		case strings.HasPrefix(t, "before"):
 			// before[Tags] <callee key suffix> : <expr> — proof obligation at every call of that callee
 			rest := strings.TrimSpace(t[len("before"):])
